@@ -288,10 +288,18 @@ func hostileStreamN(ch *Choices) ([]byte, string, int) {
 		if listName == "" {
 			listName = "[object"
 		}
+		unknownFirst := ch.Intn(3, "selfref.unknownfield") == 1
 		b.WriteByte('C')
 		b.WriteByte(3)
 		b.WriteString("Bag")
-		b.WriteByte(0x93)
+		if unknownFirst {
+			// a field the Go struct does not have, carrying a self-containing list
+			b.WriteByte(0x94)
+			b.WriteByte(2)
+			b.WriteString("zz")
+		} else {
+			b.WriteByte(0x93)
+		}
 		b.WriteByte(5)
 		b.WriteString("items")
 		b.WriteByte(5)
@@ -299,6 +307,15 @@ func hostileStreamN(ch *Choices) ([]byte, string, int) {
 		b.WriteByte(1)
 		b.WriteString("m")
 		b.WriteByte(0x60) // the Bag: ordinal 0
+		if unknownFirst {
+			// value of the unknown field. A decoder that skips unknown fields WITHOUT consuming their value
+			// reads it as the next field; one that consumes it meets a list containing itself.
+			b.WriteByte(0x71)
+			b.WriteByte(byte(len(listName)))
+			b.WriteString(listName)
+			b.WriteByte(0x51)
+			b.WriteByte(0x91)
+		}
 		n := ch.Range(0, 3, "selfref.n")
 		if ch.Intn(2, "selfref.typed") == 0 {
 			b.WriteByte(byte(0x70 + n)) // typed list: ordinal 1
